@@ -378,6 +378,13 @@ func (s *Server) follow(host string, port int, followc int) {
 		if err != nil && err != io.EOF {
 			log.Error("follow: " + err.Error())
 		}
+		// The replication link is down. Do not keep reporting "caught up"
+		// (SERVER, HEALTHZ) while waiting to reconnect.
+		s.mu.Lock()
+		if int(s.followc.Load()) == followc {
+			s.setCaughtUp(false)
+		}
+		s.mu.Unlock()
 		time.Sleep(time.Second)
 	}
 }
